@@ -169,6 +169,16 @@ def gen_grid_case(rng):
                 e["update"]["desired_soc"] = 1
         comp["grid_connectors"][next(iter(comp["grid_connectors"]))]["max_power"] = 630
         grid = [[r_, sign * abs(rng.uniform(5, 80))] for r_, _ in grid]
+    if not individual and rng.random() < 0.25:
+        # directed: V2G fleet with staggered departures inside one standing period, demand on the grid afterwards (round-3 seed C13-s7)
+        comp = js["components"]
+        for vt in comp["vehicle_types"].values():
+            vt.update({"v2g": True, "v2g_power_factor": rng.choice([0.5, 1]), "discharge_limit": 0.2})
+        for v_ in comp["vehicles"].values():
+            v_.update({"soc": 0.9, "desired_soc": 0.5})
+        js["scenario"]["core_standing_time"] = None
+        grid = [[abs(r_) + 50, 0] for r_, _ in grid]
+        sign = 1
     return {"js": js, "grid": grid, "individual": individual, "with_ts": rng.random() < 0.6, "offset": rng.choice([0, 2, 2, 3, -2])}
 
 
@@ -213,6 +223,7 @@ def run_generate(case):
             steps = s1.events.get_event_steps(s1.start_time, s1.n_intervals, s1.interval)
             gid = list(s1.components.grid_connectors)[0]
             back = []
+            outer = []
             bad_signal = [(type(e).__name__, str(e.signal_time), str(e.start_time)) for e in s1.events.grid_operator_signals if e.signal_time > e.start_time]
             for i in range(s1.n_intervals):
                 try:
@@ -220,7 +231,19 @@ def run_generate(case):
                 except Exception:  # noqa
                     pass
                 back.append((strat.world_state.grid_connectors[gid].target, {k: getattr(v, "schedule", None) for k, v in strat.world_state.vehicles.items()}))
+                # independent outer bound of the fleet's flexibility at this step: base load, plugged-in vehicles, batteries
+                ws = strat.world_state
+                conn = []
+                for vid_, v_ in ws.vehicles.items():
+                    cs_ = ws.charging_stations.get(v_.connected_charging_station) if v_.connected_charging_station else None
+                    if cs_ is not None and cs_.parent == gid:
+                        conn.append((min(v_.battery.loading_curve.max_power, cs_.max_power),
+                                     v_.battery.unloading_curve.max_power * v_.vehicle_type.v2g_power_factor if v_.vehicle_type.v2g else 0))
+                bats_ = [b for b in ws.batteries.values() if b.parent == gid]
+                outer.append((ws.grid_connectors[gid].get_current_load(), sum(c[0] for c in conn), sum(c[1] for c in conn),
+                              sum(b.loading_curve.max_power for b in bats_), sum(b.unloading_curve.max_power for b in bats_)))
             res["back"] = back
+            res["outer"] = outer
             res["bad_signal"] = bad_signal
             res["rating"] = case["js"]["components"]["grid_connectors"][gid]["max_power"]
         return res
@@ -255,6 +278,16 @@ class GenUnit(corr.Unit):
                 v.append((cls, "row %d schedule %s outside the connector rating %s: %s" % (t, sv, out["rating"], d)))
             if "flex" in out and not (out["flex"]["min"][t] - 2e-3 <= sv <= out["flex"]["max"][t] + 2e-3):
                 v.append(("C13/outside-flex", "row %d schedule %s outside the flexibility band [%s, %s]: %s" % (t, sv, out["flex"]["min"][t], out["flex"]["max"][t], d)))
+            if "flex" in out and t < len(out.get("outer", [])):
+                # collective mode: the schedule cannot ask for more than the vehicles plugged in AT THIS STEP (stepping a plain
+                # Strategy through the scenario's events) plus the batteries can take or give on top of the base load
+                base_, vch, vdis, bch, bdis = out["outer"][t]
+                lo_ = min(base_ - vdis - bdis, out["rating"]) - 5e-3
+                hi_ = max(max(base_, 0) + vch + bch, -out["rating"]) + 5e-3
+                if not (lo_ <= sv <= hi_):
+                    v.append(("C13/outside-fleet-capability", "row %d schedule %s kW, but base load %s kW with plugged-in vehicles (charge %s / "
+                              "V2G %s kW) and batteries (charge %s / discharge %s kW) only allows [%s, %s]: %s"
+                              % (t, sv, base_, vch, vdis, bch, bdis, lo_, hi_, d)))
             cur, res_ = float(r[ci["curtailment new [kW]"]]), float(r[ci["residual load new [kW]"]])
             if abs(cur) >= 1e-3 or cur == 0:
                 if abs(res_) >= 1e-3 or res_ == 0:
